@@ -56,7 +56,7 @@ def _tok(isa):
     names = [t.name for t in I.TABLES[isa] if t.patch]
     ords = [n for n in names if tab[n].kind == "ord"]
     terms = [n for n in names if tab[n].kind != "ord"]
-    ref = st.fixed_dictionaries({"k": st.sampled_from(["own", "own", "mod", "undef"]), "i": _small})
+    ref = st.fixed_dictionaries({"k": st.sampled_from(["own", "own", "own", "mod", "mod", "undef", "undeft"]), "i": _small})
     insn = st.fixed_dictionaries({"t": st.sampled_from(ords + ords + terms if terms else ords), "sym": ref,
                                   "imm": st.integers(0, 0xFFFF), "add": st.sampled_from([0, 0, 0, 8, 16])})
     lab = st.fixed_dictionaries({"lab": st.integers(0, 5), "temp": st.booleans()})
@@ -154,7 +154,8 @@ def _program(spec):
         if k == "mod":
             pool = ["modfn", "modext"] if branch else ["modfn", "modext", "moddata"]
             return pool[ref["i"] % len(pool)], "mod"
-        nm = f"undef{ref['i'] % 3}"
+        # an undefined name may also look like a temporary label of the target (".Lu0")
+        nm = f"{tprefix}u{ref['i'] % 2}" if k == "undeft" else f"undef{ref['i'] % 3}"
         undef.add(nm)
         return nm, "undef"
 
@@ -691,7 +692,7 @@ def evaluate(spec):
             out.fail("C12.labels", "at-end-symbol-inside-section", f"{nm} at {lpos}")
     # undefined symbols: exactly one proxy-backed symbol each
     for nm in undef:
-        cands = [s for s in res.symbols if s.name == nm]
+        cands = [s for s in res.symbols if s.name == nm or s.name == nm + "_7"]
         if len(cands) != 1 or not isinstance(cands[0].referent, gtirb.ProxyBlock) or cands[0].referent not in res.proxies:
             out.fail("C12.labels", "undefined-symbol-handling", f"{nm}: {len(cands)} symbols")
     return out
